@@ -439,8 +439,53 @@ def stream_raw(ck: Check, impl: Impl) -> None:
             oracle(ck, n, rounds, cfg, plan, v, ub, d, rec if len(rec) == 12 else None, "raw", scratch_ok)
 
 
+def stream_space(ck: Check, impl) -> None:
+    """The quantifier of C07 (and of C13) is "all plans accepted by the game-plan space": the space must accept exactly
+    the plans of the right shape with entries in -n..n.  One entry of a valid plan is replaced by every representable
+    value around the limits and at the extremes of the plan's integer type (e.g. -128, whose absolute value wraps);
+    `GamePlanSpace.validate` must reject exactly the out-of-range ones.  An accepted out-of-range entry would make the
+    compiled kernels index outside their arrays (found missing by seeded change C07-space-accepts-type-min)."""
+    import os
+    np = impl.np
+    rng = ck.rng
+    for n, rounds in ((2, 2), (4, 1), (4, 2), (6, 2), (10, 1)) + (() if ck.quick else ((16, 2), (126, 1), (128, 1))):
+        cfg = (1, 3, 1, 3, 1, min(6, rounds * n - 1))
+        inst = impl.instance(n, rounds, cfg)
+        if inst is None:
+            continue
+        space = impl.GamePlanSpace(inst)
+        base = np.array(rand_plan(rng, n, rounds, KINDS[0]), dtype=inst.game_plan_dtype)
+        info = np.iinfo(inst.game_plan_dtype)
+        cands = sorted({v for v in (-n - 2, -n - 1, -n, -1, 0, 1, n, n + 1, n + 2, info.min, info.min + 1, info.max - 1, info.max,
+                                    -128, -127, 127, -32768, 32767) if info.min <= v <= info.max})
+        for v in cands:
+            for _ in range(2):
+                plan = impl.GamePlan(inst)
+                plan[:, :] = base
+                d, t = rng.randrange(plan.shape[0]), rng.randrange(n)
+                plan[d, t] = v
+                try:
+                    space.validate(plan)
+                    accepted = True
+                except (ValueError, TypeError):
+                    accepted = False
+                in_range = -n <= v <= n
+                ck.case(f"space n={n} rounds={rounds} value={v} at ({d},{t})")
+                ck.count("space_accept" if accepted else "space_reject")
+                case = {"n": n, "rounds": rounds, "value": v, "day": d, "team": t, "dtype": str(inst.game_plan_dtype)}
+                ck.spec(accepted == in_range, "space_accepts_out_of_range" if accepted else "space_rejects_in_range",
+                        f"GamePlanSpace.validate {'accepts' if accepted else 'rejects'} a plan with entry {v} for n={n} "
+                        f"(entries must be in -{n}..{n})", case)
+                if accepted and not in_range and os.environ.get("NUMBA_BOUNDSCHECK") == "1":
+                    try:   # C13: what the kernel does with what the space let through
+                        impl.Errors(inst).evaluate(plan)
+                    except IndexError:
+                        ck.spec(False, "oob", f"count_errors indexes outside its arrays for the ACCEPTED plan entry {v}", case)
+
+
 def streams(ck: Check) -> None:
     impl = Impl()
+    stream_space(ck, impl)
     stream_exhaustive4(ck, impl)
     stream_objective(ck, impl)
     stream_raw(ck, impl)
